@@ -86,7 +86,7 @@ def run(tier, repo=None, only=None):
         lines = T.read_lines(stats["lines_path"])
         for asrt in (False, True):
             fams = list(PLAIN)
-            tot = _replay(lines, fams, asrt, PLAIN, repo)
+            tot = _replay(lines, fams, asrt, [PLAIN], repo)
             tot.update(config=c, asrt=asrt, tlc=stats, families=fams, vectors=len(lines))
             outcomes.append(tot)
         # the other class families on a seeded sample (all of them in the thorough tier's main configuration)
@@ -165,3 +165,24 @@ def classify(out, prop):
 def record(prop, out, att, why):
     return {"property": prop, "module": "ops", "config": out["config"]["name"], "family": att["family"], "asrt": out["asrt"],
             "why": why, "pred": att["pred"], "obs": att["obs"], "verdict": att.get("verdict")}
+
+
+def run_adversarial(tier, repo=None):
+    """C17: the same vectors on the adversarial class families, compared in lock-step with the plain class on the same base."""
+    repo = repo or core.repo_path()
+    rnd = random.Random(core.seed() + 17)
+    adv = ["adv:%s:%s" % (b, base) for b in ("alwayseq", "nevereq", "falsy", "zerolen", "unhashable", "container", "ordering", "tripwire")
+           for base in ("mixin", "light")]
+    pairs = [(a.rsplit(":", 1)[1], a) for a in adv]
+    outcomes = []
+    for c in configs(tier):
+        if c["name"] not in ("ops-n4", "ops-n3x"):
+            continue
+        stats = run_model(c)
+        lines = T.read_lines(stats["lines_path"])
+        k = 1 if c["name"] == "ops-n3x" or tier == "thorough" else 6
+        sub = lines[rnd.randrange(k)::k]
+        tot = _replay(sub, ["mixin", "light"] + adv, False, pairs, repo)
+        tot.update(config=c, asrt=False, tlc=stats, families=["mixin", "light"] + adv, vectors=len(sub))
+        outcomes.append(tot)
+    return outcomes
